@@ -174,6 +174,8 @@ def rand_universe(rng, o=None, uid=0):
                 for f in cands[st_:st_ + n_]:
                     f[1]['choice'] = 'g%d' % i
                     f[1].pop('min_occurs', None) if f[1].get('min_occurs') else None
+        if getattr(o, 'memberless_subclasses', False) and base is not None and rng.random() < .4:
+            fields = []          # a subclass that only inherits
         ns = nss[0] if base is None else next(t['ns'] for t in types if t['name'] == base)
         if base is None and rng.random() < .5:
             ns = rng.choice(nss)
@@ -193,11 +195,18 @@ def rand_universe(rng, o=None, uid=0):
                 else:
                     args = [['arg', {'ref': rng.choice(cands)}]]
             if style == 'empty':
-                args = []            # _body_style='bare' without arguments and return values is spyne's "empty" body style
+                args = []            # _body_style='bare' without arguments (and return values) is spyne's "empty" body style
             elif style != 'bare':
                 args = [['p%d' % k, rand_tspec(rng, o, types, o.max_depth)] for k in range(rng.randint(0, 4))]
             nret = rng.choice((0, 1, 1, 1, 2, 3)) if (o.multi_return and style == 'wrapped') else rng.choice((1, 1, 1, 0) if style == 'wrapped' else (1,))
             rets = [rand_tspec(rng, o, types, o.max_depth) for _ in range(nret)] if style != 'empty' else []
+            if style == 'empty' and rng.random() < .5:
+                # no arguments but a (bare) complex return value; preferably of a class all of whose members are inherited
+                cands = [t['name'] for t in types if not t.get('has_xmldata')]
+                bare_sub = [t['name'] for t in types if t.get('base') and not t['fields']]
+                if cands:
+                    style = 'empty_out_bare'
+                    rets = [{'ref': rng.choice(bare_sub or cands)}]
             if style in ('bare', 'out_bare'):
                 # a bare response element is the return type itself
                 rets = [_strip_occ(rets[0])] if rets else []
@@ -363,7 +372,7 @@ class Built(object):
         elif len(rets) > 1:
             kw['_returns'] = [self.spyne_type(r) for r in rets]
         if md['style'] != 'wrapped':
-            kw['_body_style'] = 'bare' if md['style'] == 'empty' else md['style']
+            kw['_body_style'] = 'bare' if md['style'] in ('empty', 'empty_out_bare') else md['style']
         for k in ('_operation_name', '_in_message_name', '_out_variable_names'):
             if md.get(k[1:]) is not None:
                 kw[k] = md[k[1:]]
